@@ -22,8 +22,9 @@ A line-by-line port of `demangle_simple()` and the `dd_*` grammar functions.
   of `Fn`; `body rec f` is the (non-recursive) body of `f` with the recursive
   calls going through `rec`; `run fuel f` ties the knot by structural recursion
   on `fuel` (= bound on the depth of the call/iteration chain).
-* `fixed = false` is the code as it is in the tree; `fixed = true` applies the
-  minimal repairs of findings F10, F10b, F10c, F10d, F10e, F10g (see `Props/C13.lean`).
+* `Fixes` selects, per finding, the code as it is in the tree (`false`) or the
+  minimal repair (`true`): F10, F10b, F10c, F10d, F10e, F10g (see `Props/C13.lean`).
+  `Fixes.none` = the unchanged tree, `Fixes.all` = all repairs applied.
 -/
 namespace Uft.Demangle
 open Uft.Gen.DemangleTables
@@ -51,9 +52,22 @@ inductive Crash
   | negSize      -- F10e: `dd_append_len` with a negative size (strncpy of ~SIZE_MAX bytes)
   deriving DecidableEq, Repr
 
+/-- Which of the repairs are applied (one flag per finding). -/
+structure Fixes where
+  ctorNull : Bool   -- F10 : dd_ctor_dtor_name fails when nothing was appended yet (dd->new == NULL)
+  tTypeNul : Bool   -- F10b: dd_special_name: `c1 && strchr(T_type, c1)`
+  dTypeNul : Bool   -- F10c: dd_type: `c && strchr(D_types, c)`
+  intOvf : Bool     -- F10d: dd_source_name: `num > dd->len - dd->pos`; lambda number printed unsigned
+  rustSpan : Bool   -- F10e: dd_source_name: a `$code$` must lie inside the name
+  nullRet : Bool    -- F10g: demangle_simple falls back to the input when dd.new == NULL
+  deriving DecidableEq, Repr
+
+def Fixes.all : Fixes := ⟨true, true, true, true, true, true⟩
+def Fixes.none : Fixes := ⟨false, false, false, false, false, false⟩
+
 structure Env where
   s : Array UInt8
-  fixed : Bool
+  fx : Fixes
 
 /-- strlen of the input -/
 def Env.n (e : Env) : Nat := e.s.size
@@ -99,7 +113,7 @@ def getSt : M St := fun _ st => .ok st st
 def modifySt (f : St → St) : M Unit := fun _ st => .ok () (f st)
 def getEnv : M Env := fun e st => .ok e st
 def crash {α} (k : Crash) : M α := fun _ _ => .crash k
-def isFixed : M Bool := fun e st => .ok e.fixed st
+def getFixes : M Fixes := fun e st => .ok e.fx st
 
 /-- direct read `dd->old[i]` -/
 def rdAt (i : Nat) : M UInt8 := fun e st =>
@@ -389,7 +403,7 @@ def dollarLoop (endp : Nat) : Nat → Nat → Option Nat → M Nat
       let e ← getEnv
       let sep ← dotLoop dollar (e.n + 1) p
       appendFrom sep (dollar - sep)
-      match (← findMapping e.fixed dollar endp rustMappings) with
+      match (← findMapping e.fx.rustSpan dollar endp rustMappings) with
       | none => return p
       | some (code, punc) =>
         let num0 : Nat := dollar - p
@@ -415,7 +429,7 @@ def sourceName : M Int := do
   if (← eof) then
     ddDebug 0
     return -1
-  if !e.fixed && st.pos + num.toNat > 2147483647 then crash .intOverflow
+  if !e.fx.intOvf && st.pos + num.toNat > 2147483647 then crash .intOverflow
   if st.pos + num.toNat > st.len then
     ddDebug 0
     return -1
@@ -895,7 +909,7 @@ def bVectorType : M Int := do
 def bTypeLoop (ret : Int) : M Int := do
   if (← eof) then return ret
   let c ← curr
-  let fixed ← isFixed
+  let fx ← getFixes
   if strchrB cvQual c then
     let _ ← qualifier
     rec (.typeLoop ret)
@@ -918,7 +932,7 @@ def bTypeLoop (ret : Int) : M Int := do
   else if c == ch%'D' then
     let c ← peek 1
     -- F10c: `strchr(D_types, c)` is true for c == '\0'
-    if (if fixed then c != 0 && dTypes.contains c else strchrB dTypes c) then
+    if (if fx.dTypeNul then c != 0 && dTypes.contains c else strchrB dTypes c) then
       let _ ← consumeN 2
       return 0
     else if c == ch%'p' then
@@ -970,11 +984,11 @@ def bType : M Int := do
 def bSpecialName : M Int := do
   let c0 ← curr
   let c1 ← peek 1
-  let fixed ← isFixed
+  let fx ← getFixes
   if (← eof) then return -1
   if c0 == ch%'T' then
     -- F10b: `strchr(T_type, c1)` is true for c1 == '\0' and the index is 6
-    if (if fixed then c1 != 0 && tType.contains c1 else strchrB tType c1) then
+    if (if fx.tTypeNul then c1 != 0 && tType.contains c1 else strchrB tType c1) then
       let _ ← consumeN 2
       modifySt fun st => { st with typeInfo := true }
       let idx := (tType.findIdx? (· == c1)).getD tType.length
@@ -1064,7 +1078,7 @@ def bCtorDtorName : M Int := do
   match st.out with
   | none =>
     -- F10: strrchr(NULL, ':')
-    if (← isFixed) then return -1 else crash .nullDeref
+    if (← getFixes).ctorNull then return -1 else crash .nullDeref
   | some o =>
     let last := lastComponent o
     appendBytes (if c0 == ch%'C' then [58, 58] else [58, 58, 126])
@@ -1138,7 +1152,7 @@ def bUnqualifiedName : M Int := do
       if (← getSt).type != 0 then return 0
       appendSeparator colon2
       -- F10d: `n + 1` overflows for n == INT_MAX; fixed: printed as unsigned
-      if n == 2147483647 && !(← isFixed) then crash .intOverflow
+      if n == 2147483647 && !(← getFixes).intOvf then crash .intOverflow
       appendBytes ([36, 95] ++ showInt (n + 1))
     else
       ret := -1
@@ -1315,14 +1329,14 @@ def globalPrefix : List UInt8 := bs%"_GLOBAL__sub_I_"
 
 /-- `demangle_simple(str)` (DEMANGLE_SIMPLE mode of `demangle()`), `s` = the bytes of
     `str` up to (not including) the NUL. -/
-def demangleWith (fixed : Bool) (fuel : Nat) (s : Array UInt8) : Result :=
+def demangleWith (fx : Fixes) (fuel : Nat) (s : Array UInt8) : Result :=
   let l := s.toList
   let hasPrefix := globalPrefix.isPrefixOf l
   let body := if hasPrefix then s.extract 15 s.size else s
   -- `dd.old[0] != '_' || dd.old[1] != 'Z'`: index 1 is only read when old[0] == '_'
   if !(body.getD 0 0 == ch%'_' && body.getD 1 0 == ch%'Z') then .str l
   else
-    let env : Env := { s := body, fixed := fixed }
+    let env : Env := { s := body, fx := fx }
     let st0 : St := { pos := 0, len := body.size }
     let fallback := Result.str l
     match run fuel .encoding env st0 with
@@ -1335,7 +1349,7 @@ def demangleWith (fixed : Bool) (fuel : Nat) (s : Array UInt8) : Result :=
           -- F10g: a parse that succeeds without appending anything returns `dd.new == NULL`
           -- (callers dereference it); fixed: fall back to the input
           match st.out with
-          | none => if fixed then fallback else .null
+          | none => if fx.nullRet then fallback else .null
           | some o => .str (if hasPrefix then globalPrefix ++ o else o)
         if st.pos ≥ st.len then fin st
         else if !st.typeInfo then fallback
@@ -1348,6 +1362,6 @@ def demangleWith (fixed : Bool) (fuel : Nat) (s : Array UInt8) : Result :=
 /-- fuel that is always enough (see `c13_fuel_suffices`) -/
 def fuelFor (s : Array UInt8) : Nat := 40 * (s.size + 2)
 
-def demangle (fixed : Bool) (s : Array UInt8) : Result := demangleWith fixed (fuelFor s) s
+def demangle (fx : Fixes) (s : Array UInt8) : Result := demangleWith fx (fuelFor s) s
 
 end Uft.Demangle
